@@ -388,17 +388,34 @@ func (a *Analyzer) Analyze(fragments []text.TextFragment, pageWidth, pageHeight 
 }
 
 // buildElementTree creates a unified element tree from all detected components.
-// It merges headings, lists, and paragraphs, avoiding duplicates where elements
-// overlap, and sorts them into reading order.
+// It merges headings, lists, and paragraphs so that every fragment is shown by
+// exactly one element, and sorts them into reading order.
+//
+// Headings and lists are detected on the lines of the whole page, the paragraphs
+// on the lines of each column, so the boxes of the two groupings say nothing
+// about which text they share. What an element shows is decided fragment by
+// fragment: detectors copy TextFragment values, so the value (text, position,
+// size, font) is the identity of a fragment, and equal values are counted.
 func (a *Analyzer) buildElementTree(result *AnalysisResult) []LayoutElement {
 	var elements []LayoutElement
 
-	// Track which paragraphs have been consumed by headings or lists
-	consumedParaIndices := make(map[int]bool)
+	// shown counts the fragments that a heading or list element shows
+	shown := make(map[text.TextFragment]int)
+	if result.Lists != nil {
+		for i := range result.Lists.Lists {
+			for _, item := range result.Lists.Lists[i].GetAllItems() {
+				countFragments(shown, item.Lines)
+			}
+		}
+	}
 
 	// Add headings
 	if result.Headings != nil {
 		for i, heading := range result.Headings.Headings {
+			// A paragraph that list detection made an item of a list is shown by that list
+			if len(heading.Lines) > 0 && allFragmentsShown(shown, heading.Lines) {
+				continue
+			}
 			heading := heading // each element points to its own heading (go.mod is pre-1.22)
 			elem := LayoutElement{
 				Type:    model.ElementTypeHeading,
@@ -409,15 +426,9 @@ func (a *Analyzer) buildElementTree(result *AnalysisResult) []LayoutElement {
 				Lines:   heading.Lines,
 			}
 			elements = append(elements, elem)
-
-			// Mark overlapping paragraphs as consumed
-			if result.Paragraphs != nil {
-				for j, para := range result.Paragraphs.Paragraphs {
-					if bboxOverlaps(heading.BBox, para.BBox) {
-						consumedParaIndices[j] = true
-					}
-				}
-			}
+		}
+		for _, elem := range elements {
+			countFragments(shown, elem.Lines)
 		}
 	}
 
@@ -433,25 +444,16 @@ func (a *Analyzer) buildElementTree(result *AnalysisResult) []LayoutElement {
 				List:  &list,
 			}
 			elements = append(elements, elem)
-
-			// Mark overlapping paragraphs as consumed
-			if result.Paragraphs != nil {
-				for j, para := range result.Paragraphs.Paragraphs {
-					if bboxOverlaps(list.BBox, para.BBox) {
-						consumedParaIndices[j] = true
-					}
-				}
-			}
 		}
 	}
 
-	// Add remaining paragraphs
+	// Add the paragraphs, without the fragments a heading or list already shows
 	if result.Paragraphs != nil {
 		for i, para := range result.Paragraphs.Paragraphs {
-			if consumedParaIndices[i] {
+			para, ok := a.paragraphNotShown(para, shown)
+			if !ok {
 				continue
 			}
-			para := para // each element points to its own paragraph
 			elem := LayoutElement{
 				Type:      model.ElementTypeParagraph,
 				BBox:      para.BBox,
@@ -474,6 +476,72 @@ func (a *Analyzer) buildElementTree(result *AnalysisResult) []LayoutElement {
 	}
 
 	return elements
+}
+
+// countFragments counts every fragment of the lines.
+func countFragments(counts map[text.TextFragment]int, lines []Line) {
+	for _, line := range lines {
+		for _, f := range line.Fragments {
+			counts[f]++
+		}
+	}
+}
+
+// allFragmentsShown reports whether every fragment of the lines is counted in shown.
+func allFragmentsShown(shown map[text.TextFragment]int, lines []Line) bool {
+	for _, line := range lines {
+		for _, f := range line.Fragments {
+			if shown[f] <= 0 {
+				return false
+			}
+		}
+	}
+	return true
+}
+
+// paragraphNotShown returns the part of a paragraph that no heading or list shows:
+// every fragment counted in shown is taken out of the paragraph (and off the count).
+// A paragraph that keeps all its fragments is returned as it is; one that loses some
+// keeps its remaining lines and fragments in their order, with text and boxes
+// assembled again; ok is false when nothing remains.
+func (a *Analyzer) paragraphNotShown(para Paragraph, shown map[text.TextFragment]int) (Paragraph, bool) {
+	var lines []Line
+	changed := false
+	for _, line := range para.Lines {
+		var rest []text.TextFragment
+		for _, f := range line.Fragments {
+			if shown[f] > 0 {
+				shown[f]--
+				continue
+			}
+			rest = append(rest, f)
+		}
+		if len(rest) == len(line.Fragments) {
+			lines = append(lines, line)
+			continue
+		}
+		changed = true
+		if len(rest) == 0 {
+			continue
+		}
+		// the lines of a column are positioned relative to the column: keep the shift
+		shift := fragmentsBBox(line.Fragments).X - line.BBox.X
+		line.Fragments = rest
+		line.Text = a.lineDetector.assembleLineText(rest)
+		line.BBox = fragmentsBBox(rest)
+		line.BBox.X -= shift
+		lines = append(lines, line)
+	}
+	if !changed {
+		return para, true
+	}
+	if len(lines) == 0 {
+		return para, false
+	}
+	para.Lines = lines
+	para.Text = a.paragraphDetector.assembleParagraphText(lines)
+	para.BBox = a.paragraphDetector.calculateParagraphBBox(lines)
+	return para, true
 }
 
 // getListText extracts all text from a list by concatenating item prefixes and text,
